@@ -684,6 +684,8 @@ func init() {
 				// blocks); DataFileSize 20 puts every record into its own file at the same in-block offset
 				add("k2-damaged-while-open", merge(base, p("k", 2, "ops", opPut, "vlens", 3, "vbig", 8, "live", 1, "dfs_lo", 30, "dfs_hi", 30)))
 				add("k2-damaged-while-open-onefile", merge(base, p("k", 2, "ops", opPut|opDelete, "vlens", 2, "live", 1)))
+				// live damage inside a continuation chunk of a multi-chunk value, read back through the point-read path (S147)
+				add("k1-damaged-while-open-multichunk", merge(base, p("k", 1, "ops", opPut, "vlens", 3, "vbig", 30, "live", 1)))
 			} else {
 				add("k3", merge(base, p("k", 3, "ops", opPut|opDelete)))
 				add("k3-rot-bigval", merge(base, p("k", 3, "ops", opPut|opDelete, "vlens", 3, "vbig", 30, "dfs_lo", 60, "dfs_hi", 120)))
